@@ -1826,7 +1826,10 @@ class tensor:
         """
         # Check that vector is a list of vectors, if not place single vector as element
         # in list
-        if len(vector) > 0 and isinstance(vector[0], (int, float, np.int_, np.float64)):
+        # (an entry of any numeric or boolean scalar type marks a single vector)
+        if len(vector) > 0 and isinstance(
+            vector[0], (int, float, np.number, np.bool_)
+        ):
             return self.ttv(np.array([vector]), dims, exclude_dims)
 
         # Get sorted dims and index for multiplicands
